@@ -264,7 +264,7 @@ func faultProbeName(k string) string {
 		return e3.KText
 	case "dir", "dir-named-go":
 		return e3.KDir
-	case "dangling-symlink-go":
+	case "dangling-symlink-go", "dangling-symlink", "symlink-to-dir-go":
 		return e3.KSymlink
 	}
 	return k
